@@ -176,17 +176,19 @@ func (kgdb *KVInterfaceGDB) DelEdge(eid string) error {
 	skey := SrcEdgeKey(kgdb.graph, sid, did, eid, label, etype)
 	dkey := DstEdgeKey(kgdb.graph, sid, did, eid, label, etype)
 
-	if err := kgdb.kvg.kv.Delete(ekey); err != nil {
-		return err
-	}
-	if err := kgdb.kvg.kv.Delete(skey); err != nil {
-		return err
-	}
-	if err := kgdb.kvg.kv.Delete(dkey); err != nil {
-		return err
-	}
-	kgdb.kvg.ts.Touch(kgdb.graph)
-	return nil
+	return kgdb.kvg.kv.Update(func(tx kvi.KVTransaction) error {
+		if err := tx.Delete(ekey); err != nil {
+			return err
+		}
+		if err := tx.Delete(skey); err != nil {
+			return err
+		}
+		if err := tx.Delete(dkey); err != nil {
+			return err
+		}
+		kgdb.kvg.ts.Touch(kgdb.graph)
+		return nil
+	})
 }
 
 // DelVertex deletes vertex with id `key`
